@@ -91,6 +91,16 @@ def make_assignment(spec, blocks=None):
             out = np.zeros(n)
         elif kind == "const":
             return float(spec["value"])
+        elif kind == "inplace":
+            # a function that rectifies the block it was handed IN PLACE before using it: legal for a callable, and
+            # harmless as long as it is handed the sampled parent values (not a window onto the sample matrix)
+            Xb = np.asarray(Xb)
+            if blocks is not None:
+                np.maximum(Xb, 0, out=Xb) if Xb.flags.writeable and Xb.dtype == float else None
+            Xr = np.maximum(np.asarray(Xb, dtype=float), 0)
+            out = np.zeros(n)
+            for c, a in enumerate(spec["coef"]):
+                out = out + a * Xr[:, c]
         else:
             out = np.zeros(n)
             for c, (a, g) in enumerate(zip(spec["coef"], spec["g"])):
@@ -154,7 +164,9 @@ def check(case):
     lab = []
     depth2 = any(pa[j] for i in range(p) for j in pa[i])
     cancelling = any(len(pa[i]) >= 2 and abs(A[pa[i], i].sum()) < 1e-12 for i in range(p))
-    asym = any(len(pa[i]) >= 2 and case["assign"][i]["kind"] in ("lin", "prod") for i in range(p))
+    asym = any(len(pa[i]) >= 2 and case["assign"][i]["kind"] in ("lin", "prod", "inplace") for i in range(p))
+    if any(case["assign"][i]["kind"] == "inplace" for i in range(p)):
+        lab.append("inplace_assignment")
     if any(len(pa[i]) >= 2 and max(pa[i]) >= 8 and min(pa[i]) < 8 for i in range(p)):
         lab.append("parents_straddle_8")
     for ci, call in enumerate(case["calls"]):
@@ -256,10 +268,10 @@ def anm_case(draw, p_max):
     if src == "binary":
         case = {"A": draw(S.dag_pattern(1, p_max)), "dtype": draw(st.sampled_from(["int", "float"]))}
     elif src == "weighted":
-        W, cls = draw(S.weighted_dag(1, p_max, classes=("unit", "smallint", "dyadic", "cancelling", "cancelling")))
+        W, cls = draw(S.weighted_dag(1, p_max, classes=("unit", "smallint", "dyadic", "cancelling", "cancelling", "tiny")))
         case = {"W": W, "dtype": draw(st.sampled_from(["int", "float"]))}
     else:
-        W, cls = draw(S.weighted_dag(3, 6, classes=("unit", "dyadic", "cancelling"), shapes=("collider", "dense", "random")))
+        W, cls = draw(S.weighted_dag(3, 6, classes=("unit", "dyadic", "cancelling", "tiny"), shapes=("collider", "dense", "random")))
         case = {"W": draw(S.embedded(W, 9, 12)), "dtype": "float"}
     M = case.get("A", case.get("W"))
     p = len(M)
@@ -270,7 +282,7 @@ def anm_case(draw, p_max):
         if k == 0:
             assign.append({"kind": draw(st.sampled_from(["none", "null", "zero"])), "ret": draw(st.sampled_from(["vec", "col"]))})
             continue
-        kind = draw(st.sampled_from(["lin", "lin", "lin", "prod", "const"]))
+        kind = draw(st.sampled_from(["lin", "lin", "lin", "prod", "const", "inplace"]))
         if kind == "const":
             assign.append({"kind": "const", "value": draw(st.integers(-8, 8)) / 4.0})
             continue
